@@ -560,6 +560,45 @@ func runMerge(sc *streamScenario, vs []variantSpec, rec *recorder) {
 					s = append(s, pk(i)...)
 				}
 			}
+		case "resumeadj", "resumesep":
+			// the input ends between two packets of a PID (everything is dumped), then more input arrives on the same reader and the caller
+			// goes on: what the PID delivers is the same whether its next packet comes first or behind a null packet
+			cut := -1
+			for i := 0; i+1 < len(bs.pkts); i++ {
+				if bs.pkts[i].PID == v.PID && bs.pkts[i+1].PID == v.PID && bs.pkts[i].K == "" && bs.pkts[i+1].K == "" {
+					cut = i + 1
+				}
+			}
+			if cut < 0 {
+				continue
+			}
+			var part1, part2 []byte
+			for i := 0; i < cut; i++ {
+				part1 = append(part1, pk(i)...)
+			}
+			if v.T == "resumesep" {
+				f := pktSpec{PID: 0x1fff, K: "null", CC: rg.intn(16)}
+				part2 = append(part2, packetBytes(&f, nil, rg)...)
+			}
+			for i := cut; i < len(bs.pkts); i++ {
+				part2 = append(part2, pk(i)...)
+			}
+			rec.ev(M{"ev": "variant", "r": run, "t": v.T, "cpid": v.PID, "mode": v.Mode, "k": v.K})
+			gr := &growReader{b: part1}
+			dmx := newDemuxer(gr, sc.Run)
+			r := run
+			for phase := 0; phase < 2; phase++ {
+				drainData(dmx, len(part1)/188+len(part2)/188+len(bs.units)*4+10, func() int { return 0 }, func(e M) {
+					e["run"] = r
+					if e["ev"] == "eof" && phase == 0 {
+						return // the first end of input: the caller waits for more
+					}
+					rec.ev(e)
+				})
+				gr.b = append(gr.b, part2...)
+			}
+			run++
+			continue
 		case "corrupt":
 			for i := range bs.pkts {
 				p := &bs.pkts[i]
@@ -601,6 +640,21 @@ func runMerge(sc *streamScenario, vs []variantSpec, rec *recorder) {
 		}
 		demuxRunN(s, v)
 	}
+}
+
+// growReader: a reader that reports the end of its input and can be given more afterwards (a file being written, a buffer being filled)
+type growReader struct {
+	b   []byte
+	pos int
+}
+
+func (g *growReader) Read(p []byte) (int, error) {
+	if g.pos >= len(g.b) {
+		return 0, io.EOF
+	}
+	n := copy(p, g.b[g.pos:])
+	g.pos += n
+	return n, nil
 }
 
 // ---------- C19: PacketSkipper and PacketsParser ----------
